@@ -88,21 +88,22 @@ impl<T> LRUList<T> {
 
     fn remove(&mut self, node_handle: LRUHandle<T>) -> T {
         unsafe {
-            // If has next
-            if let Some(ref mut nextp) = (*node_handle).next {
-                swap(&mut (**nextp).prev, &mut (*node_handle).prev);
-            }
-            // If has prev
-            if let Some(ref mut prevp) = (*node_handle).prev {
-                // swap prev.next
-                // (node_handle will own itself now)
-                swap(&mut (**prevp).next, &mut (*node_handle).next);
+            // Every node in the list has a predecessor (the first one has the head).
+            let prevp = (*node_handle).prev.unwrap();
+            // Take the node out of its predecessor; from here on we own it.
+            let mut node = replace(&mut (*prevp).next, None).unwrap();
+
+            if let Some(mut next) = replace(&mut node.next, None) {
+                // Link the following node to the predecessor.
+                next.prev = Some(prevp);
+                (*prevp).next = Some(next);
+            } else {
+                // The node was the last one; its predecessor is the new tail.
+                self.head.prev = Some(prevp);
             }
 
             self.count -= 1;
-            // node_handle now only has references/objects that point to itself,
-            // so it's safe to drop
-            replace(&mut (*node_handle).data, None).unwrap()
+            replace(&mut node.data, None).unwrap()
         }
     }
 
@@ -201,6 +202,11 @@ impl<T> Cache<T> {
     /// If the capacity has been reached, the least recently used element is removed from the
     /// cache.
     pub fn insert(&mut self, key: &CacheKey, elem: T) {
+        // An entry that is already present is replaced; otherwise its list node would stay behind.
+        if let Some((_, old_handle)) = self.map.remove(key) {
+            self.list.remove(old_handle);
+        }
+
         if self.list.count() >= self.cap {
             if let Some(removed_key) = self.list.remove_last() {
                 assert!(self.map.remove(&removed_key).is_some());
